@@ -1302,8 +1302,27 @@ func (v *VC) makeIface(t types.Type, x string) string {
 	case "Str":
 		return fmt.Sprintf("(iface-s %d %s)", tid, x)
 	}
+	if bx, _ := v.boxFns(v.sortOf(t)); bx != "" {
+		// a struct value boxed into an interface: the box is an injective function of the value
+		return fmt.Sprintf("(iface-o %d (%s %s))", tid, bx, x)
+	}
 	v.fresh++
 	return fmt.Sprintf("(iface-o %d %d)", tid, v.fresh)
+}
+
+// boxFns returns, for a struct sort, the names of the injective boxing function S -> Int and of
+// its inverse (declared on first use); "" for other sorts.
+func (v *VC) boxFns(srt string) (string, string) {
+	if _, ok := v.structs[srt]; !ok {
+		return "", ""
+	}
+	bx, ub := "box_"+srt, "unbox_"+srt
+	if _, ok := v.ufs[bx]; !ok {
+		v.uf(bx, []string{srt}, "Int")
+		v.uf(ub, []string{"Int"}, srt)
+		v.extraAxioms = append(v.extraAxioms, fmt.Sprintf("(assert (forall ((x %s)) (! (= (%s (%s x)) x) :pattern ((%s x)))))", srt, ub, bx, bx))
+	}
+	return bx, ub
 }
 
 func (v *VC) genTypeAssert(i *ssa.TypeAssert, g string) {
@@ -1342,9 +1361,13 @@ func (v *VC) genTypeAssert(i *ssa.TypeAssert, g string) {
 	case "Str":
 		val = fmt.Sprintf("(is-val %s)", x)
 	default:
-		fn := v.freshName("tav")
-		v.emit("(declare-const %s %s)", fn, srt)
-		val = fn
+		if _, ub := v.boxFns(srt); ub != "" {
+			val = fmt.Sprintf("(%s (io-id %s))", ub, x)
+		} else {
+			fn := v.freshName("tav")
+			v.emit("(declare-const %s %s)", fn, srt)
+			val = fn
+		}
 	}
 	if i.CommaOk {
 		v.emit("(define-fun %s_0 () %s (ite %s %s %s))", n, srt, okT, val, v.zero(i.AssertedType))
